@@ -161,6 +161,7 @@ pub open spec fn varint_val(s: Seq<u8>) -> u64 {
 //@          if s.len() > 0 { assert((s + t)[0] == s[0]); }
 //@      }
 //@    fn decode
+//@      touch Self::parse(arbitrary())
 //@      desugar_try
 //@      body_sub u16::from_be_bytes\( => u16_from_be_bytes(
 //@      body_sub u32::from_be_bytes\( => u32_from_be_bytes(
@@ -203,6 +204,7 @@ pub open spec fn fixed_parse(s: Seq<u8>, n: nat) -> Parse { if s.len() < n { Par
 //@      open spec fn parse(s: Seq<u8>) -> Parse { fixed_parse(s, 1) }
 //@      proof fn parse_laws(s: Seq<u8>, t: Seq<u8>) {}
 //@    fn decode
+//@      touch Self::parse(arbitrary())
 //@      ret res
 //@      ensures
 //@        res is Ok ==> res->Ok_0 == (*old(reader)).rem()[0]
@@ -212,6 +214,7 @@ pub open spec fn fixed_parse(s: Seq<u8>, n: nat) -> Parse { if s.len() < n { Par
 //@      open spec fn parse(s: Seq<u8>) -> Parse { fixed_parse(s, 2) }
 //@      proof fn parse_laws(s: Seq<u8>, t: Seq<u8>) {}
 //@    fn decode
+//@      touch Self::parse(arbitrary())
 //@      ret res
 //@      ensures
 //@        res is Ok ==> res->Ok_0 == be16((*old(reader)).rem()[0], (*old(reader)).rem()[1])
@@ -221,6 +224,7 @@ pub open spec fn fixed_parse(s: Seq<u8>, n: nat) -> Parse { if s.len() < n { Par
 //@      open spec fn parse(s: Seq<u8>) -> Parse { fixed_parse(s, N as nat) }
 //@      proof fn parse_laws(s: Seq<u8>, t: Seq<u8>) {}
 //@    fn decode
+//@      touch Self::parse(arbitrary())
 //@      desugar_try
 //@      ret res
 //@      ensures
@@ -298,6 +302,7 @@ impl Link { pub fn is_outbound(&self) -> (r: bool) ensures r == (*self == Link::
 //@      open spec fn parse(s: Seq<u8>) -> Parse { version_parse(s) }
 //@      proof fn parse_laws(s: Seq<u8>, t: Seq<u8>) { if s.len() >= 4 { assert((s + t).take(4) =~= s.take(4)); } }
 //@    fn decode
+//@      touch Self::parse(arbitrary())
 //@      desugar_try
 //@      ret res
 //@      ensures
@@ -322,6 +327,7 @@ impl Link { pub fn is_outbound(&self) -> (r: bool) ensures r == (*self == Link::
 //@      open spec fn parse(s: Seq<u8>) -> Parse { varint_parse(s) }
 //@      proof fn parse_laws(s: Seq<u8>, t: Seq<u8>) { VarInt::parse_laws(s, t); }
 //@    fn decode
+//@      touch Self::parse(arbitrary())
 //@      desugar_try
 //@      head
 //@        proof { std_from_refl::<wire::Error>(); }
@@ -344,6 +350,7 @@ impl Link { pub fn is_outbound(&self) -> (r: bool) ensures r == (*self == Link::
 //@          if s.len() >= 1 { assert((s + t)[0] == s[0]); assert((s + t).skip(1) =~= s.skip(1) + t); VarInt::parse_laws(s.skip(1), t); }
 //@      }
 //@    fn decode
+//@      touch Self::parse(arbitrary())
 //@      desugar_try
 //@      head
 //@        proof { std_from_refl::<wire::Error>(); }
@@ -352,6 +359,7 @@ impl Link { pub fn is_outbound(&self) -> (r: bool) ensures r == (*self == Link::
 //@      open spec fn parse(s: Seq<u8>) -> Parse { frame_parse::<M>(s) }
 //@      proof fn parse_laws(s: Seq<u8>, t: Seq<u8>) { lemma_frame_laws::<M>(s, t); }
 //@    fn decode
+//@      touch Self::parse(arbitrary())
 //@      desugar_try
 //@      head
 //@        proof { std_from_refl::<wire::Error>(); std_io_error_from_kind(); lemma_seq_facts(); }
